@@ -19,18 +19,26 @@ PROOF = "Gallia.Proofs.C09"
 DRIVER = "c09"
 ORACLE = False
 ASSUMPTIONS = [
-    "ECU class: answers to DiagnosticSessionControl depend only on the current session (a graph `g`) and on whether the "
-    "request comes right after the requests of the ECU class' set_session_pre hook (a second graph `gh`, equal to `g` for the "
-    "base ECU class); only a positive answer changes the session; a positive ECUReset re-enters session 1; hook requests "
-    "are answered (negatively) and do not change the session",
+    "exactness (scan_exact*, scan_complete*) is claimed for ECUs that have a session graph: GraphLike stateful ECUs (reply to `10 u` "
+    "and the session afterwards depend on the current session only, whatever the inner state, the history and the timing; "
+    "proved to be simulated by the graph model: scan_simulates_graph) and, with an OEM ECU class whose session hooks send "
+    "requests, the graph ECU with a second graph `gh` for the hooked attempt (the stateful version of this one is tied to the "
+    "graph model by the twin check of the harness, not by a theorem)",
+    "for ECUs that are not graph-like only what is stated is claimed: wire alphabet, skip list and request bound for ANY ECU "
+    "(requests_only_dsc_reset_ping_hooks, skip_not_requested_any, requests_bounded); security-locked transitions: exactly the "
+    "sessions reachable without unlocking (scan_exact_locked_subgraph); ResponsePending in front of real answers: transparent "
+    "(scan_pending_transparent); S3 session timeout: completeness and the reported stack can fail (witness theorems), the general "
+    "soundness statement `every reported session is reachable in the graph` is checked by the tie only; sporadic "
+    "busyRepeatRequest / lost requests within max_retry per request: `same report as without faults` is checked by the tie only",
     "after an accepted ECUReset the ECU leaves a number of pings unanswered (boot phase) that fits into wait_for_ecu's "
-    "timeout; afterwards it answers every ping",
-    "NRCs generated are members of UDSErrorCodes other than responsePending (0x78); the pending loop is C04's subject "
-    "(its transparency above the client is proved for the scanners of C10: pending_transparent)",
+    "timeout (pingBudget = pings sent at 0.5 s, 1.5 s, ... before the timeout); afterwards it answers every ping",
+    "fewer than 119 ResponsePending frames per request (MAX_N_PENDING, C04's subject); client timing as in UDSClient: timeout "
+    "2 s, retry_wait 0.2 s * 2^i, pending loop gives up after 40 * 0.5 s, pings every 0.5 s with 0.5 s timeout; the scanner's "
+    "--sleep is 0",
     "completeness is claimed for runs that do not exit with status 1; every ECU whose sessions can all re-enter the "
     "default session (ISO 14229-1: `10 01` is mandatory) is proved to be such a run",
-    "OEM hooks are represented by the list of 2-byte requests they send (send_raw, reply ignored); with the base ECU class "
-    "--with-hooks repeats the request once on conditionsNotCorrect",
+    "OEM hooks are represented by the list of 2-byte requests they send (send_raw through request_unsafe, reply ignored, an "
+    "unanswered one raises MissingResponse); with the base ECU class --with-hooks repeats the request once on conditionsNotCorrect",
 ]
 
 NRCS = [0x10, 0x11, 0x13, 0x22, 0x22, 0x24, 0x31, 0x33, 0x33, 0x7E, 0x7E, 0x7F, 0x21]
@@ -644,12 +652,12 @@ def closure(case):
 
 
 def request_bound(case):
-    """requests_bounded (Proofs/C09.lean): stacks expanded * 127 * requests per probe"""
+    """`scanBound c depth 1 1` of requests_bounded (Proofs/C09.lean): sum over levels j of 127^(j-1) stacks * 127 probes *
+    perProbe c j"""
     n_hook = len(case.get("pre", ())) + len(case.get("post", ()))
-    per_dsc = (case["max_retry"] + 1) * (2 + n_hook)
-    per_probe = ((case["max_retry"] + 1) + case.get("boot", 0) + 2 if case["reset"] else 0) + (case["depth"] + 1) * per_dsc
-    stacks = 127 if not case["thorough"] else sum(127 ** j for j in range(case["depth"]))
-    return stacks * 127 * per_probe
+    mr = case["max_retry"] + 1
+    pb = case.get("boot", 0) + 2
+    return sum(127 ** (j - 1) * 127 * ((mr + pb) + (j + 1) * (mr * (2 + n_hook))) for j in range(1, case["depth"] + 1))
 
 
 def judge_s(case, impl, model, spec):
@@ -1196,14 +1204,27 @@ MANIFEST = {
                    "termination, state tracking before every probe, skipped sessions never requested (except the default "
                    "session during stack recovery: witness theorem + known finding), thorough mode and --reset report the same set, "
                    "--with-hooks only adds sessions. "
+                   "Generalised to arbitrary STATEFUL ECUs (Model/SessionScanS.lean: `step : state -> idle ms -> request -> state x "
+                   "reply`, every transmission of request_unsafe a step, ResponsePending frames, hook requests through "
+                   "request_unsafe, the pings of wait_for_ecu up to its budget, the client's own session state): the stateful scan "
+                   "of every GraphLike ECU is the graph scan (scan_simulates_graph, with soundness / completeness / exactness as "
+                   "corollaries; the graph ECU run step by step and the security-locked ECU are instances: "
+                   "scan_exact_locked_subgraph); ResponsePending is transparent (scan_pending_transparent); for ANY ECU the wire "
+                   "carries only probes to non-skipped sessions, recovery DSCs, reset + pings under --reset and the hook requests "
+                   "under --with-hooks (requests_only_dsc_reset_ping_hooks, skip_not_requested_any) and at most "
+                   "sum_j 127^j * perProbe(j) requests (requests_bounded); the written rows are characterised (rows_match_report); "
+                   "under an S3 session timeout completeness and the reported stack fail (witness theorems). "
                    "Tied to the code by running the real SessionsScanner.main() with a real ECU/UDSClient on an in-process "
                    "graph ECU under virtual time and comparing result, written session_transition rows, exit status, final "
                    "session and the exact request sequence seen by the ECU; the specification is evaluated on what the real "
-                   "scanner reported."),
+                   "scanner reported. Stateful families (S3 timer by request count and by virtual time, security-locked "
+                   "transitions, ResponsePending frames, scripted busyRepeatRequest / lost requests, max_retry 0..2, hooks, "
+                   "reset) drive the real scanner against the stateful model on result, rows, exit, ECU and client session and "
+                   "the exact wire trace; every graph case is also run through the stateful model (twin check)."),
     "level_note": ("Trusted: Lean kernel (axioms propext, Quot.sound, Classical.choice), the harness and its graph ECU, the "
                    "virtual-time loop. The ECU class is a deterministic session graph (answers depend on the current "
                    "session and on whether the session hook preceded the request); responsePending handling belongs to C04; OEM "
                    "hooks are request lists."),
-    "technique": "Lean 4 proof (invariants over nested folds, BFS completeness) + differential correspondence against the real scanner",
+    "technique": "Lean 4 proof (invariants over nested folds, BFS completeness, layer-by-layer simulation of the graph model by the stateful model) + differential correspondence against the real scanner",
     "design_ref": "DESIGN.md section 7, C09",
 }
